@@ -46,7 +46,7 @@ TIERS = {
                   tlc_timeout=600, workers={"mem": 6, "leveldb": 5, "lazy": 5}),
     "thorough": dict(sigs=["MC_SigsThorough.cfg", "MC_SigsThoroughB.cfg"], kb="MC_KeybaseThorough.cfg", kbsim="MC_KeybaseSimThorough.cfg",
                      kbprog="MC_KeybaseProg.cfg", depth=16, sim_num=2500,
-                     budget={"mem": 6000, "leveldb": 2000, "lazy": 2000}, budget_prog={"mem": 9000, "leveldb": 4500, "lazy": 4500},
+                     budget={"mem": 6000, "leveldb": 2000, "lazy": 2000}, budget_prog={"mem": 6000, "leveldb": 3000, "lazy": 3000},
                      tlc_timeout=1700, workers={"mem": 6, "leveldb": 5, "lazy": 5}),
 }
 BACKENDS = ("mem", "leveldb", "lazy")
@@ -483,6 +483,9 @@ def _compare_behaviours(backend, behs, resp, find, notes, job):
                 if r["ok"] and exp["class"] != "ok":
                     if exp["class"] == "badpass":
                         viol("keybase-wrong-passphrase-accepted", op, "a call with a wrong passphrase succeeds", i, {"real": r})
+                    elif exp["class"] == "exists":
+                        viol("keybase-import-overwrites-stored-key", op, "an import of a key that is already in the keybase is accepted instead of refused "
+                             "(%s key %d; the stored key is re-encrypted under the importer's passphrase)" % (KIND.get(l["k"], "?"), l["k"]), i, {"real": r})
                     else:
                         viol("keybase-call-succeeds-unexpectedly", op, "the model's call fails (%s), the real one succeeds" % exp["class"], i, {"real": r})
                     diverged = True
@@ -712,6 +715,13 @@ ASSUMPTIONS = [
     "message it was made with); the binding observes them on every generated negative case (other key, other message, "
     "flipped byte, dropped byte, no bytes, cross-type).",
     "scrypt + AES-GCM is modelled by its contract: an armor opens iff the passphrase is the one it was encrypted with.",
+    "Keybase behaviours and scenario programs are replayed on keys.NewInMemory(), on the same dbKeybase over a GoLevelDB that stays open "
+    "(the package exports no constructor for it: the database field of an in-memory keybase is replaced through reflection) and on the "
+    "lazy keybase keys.New (LevelDB opened and closed by every call). A secp256k1 key enters a keybase only as an armor "
+    "(mintkey.EncryptArmorPrivKey by the client, then ImportPrivKey); ImportPrivateKeyObject and Create handle ed25519 keys only.",
+    "What an exported armor holds and which passphrase opens it (the abstraction of the client's armors) is observed right after "
+    "ExportPrivKeyEncryptedArmor with mintkey.UnarmorDecryptPrivKey: it opens under the export passphrase, holds the exported key, and "
+    "stays closed under the storage passphrase when the two differ.",
     "Compared as normative: success/failure of each keybase call, the key/address it returns, List() after every call, "
     "verification of keybase signatures under the listed public key, and which passphrase opens which key at the end of a "
     "behaviour. Error classes (messages) and the cached coinbase are recorded as nonconformance notes only.",
